@@ -60,6 +60,8 @@ type OpInst struct {
 	PadTo     int
 	Barrier   int
 	BGroup    string
+	StartAbs  int64    // simulated wall clock (unix ns, no granularity) when the command started / ended
+	EndAbs    int64
 	Say       int      // -say N: print N bytes without a newline on standard output
 	Head      int      // -head N: read only the first N bytes of each input, then close it
 	TouchIn   bool     // -touchin: the command re-writes its first input in place (same bytes, new mtime), like sort -o / an index update
@@ -794,6 +796,7 @@ func (sh *Shell) finish(o *OpInst, code int, signal string) (int, string) {
 	o.Signal = signal
 	o.EndStep = sh.s.Steps
 	o.EndNS = sh.s.now
+	o.EndAbs = sh.s.Cfg.Epoch + sh.s.now
 	if signal != "" {
 		o.Code = -1
 	}
@@ -821,6 +824,7 @@ func (sh *Shell) runOp(r *shellRun, w []string) (int, string) {
 	o.Running = true
 	o.StartStep = s.Steps
 	o.StartNS = s.now
+	o.StartAbs = s.Cfg.Epoch + s.now
 	sh.traceEv("start", o)
 	if o.Fail != FailNone {
 		s.Fault(o.Fail.String())
@@ -1050,6 +1054,7 @@ func (sh *Shell) CustomStart(name string, inputs []string, params []string) *OpI
 	o.Running = true
 	o.StartStep = s.Steps
 	o.StartNS = s.now
+	o.StartAbs = s.Cfg.Epoch + s.now
 	sh.traceEv("start", o)
 	return o
 }
